@@ -171,6 +171,11 @@ theorem poke_lenE (s : St) (slot off : Nat) (bs : List Byte) (h : off + bs.lengt
       split
       · simp only [LenE] at ih ⊢; rw [ih]; simp
       · exact ih s
+    | report n =>
+      simp only [applyNested]
+      split
+      · simp only [LenE] at ih ⊢; rw [ih]; simp
+      · exact ih s
 
 /-! ### level 1 -/
 
